@@ -406,6 +406,8 @@ func TestVerifC01(t *testing.T) {
 		// request SEQUENCE for the model: [GET; nested...] resp. [nested...; PUT].
 		var pool *ksPool
 		var trig *c01Trigger
+		insideAbandon := false
+		var pendingObs []int
 		scribbleN := 256
 		if overlap {
 			// in 2 of 3 overlap cases 1-2 more buffers are out for the whole case (other clients' requests
@@ -526,7 +528,9 @@ func TestVerifC01(t *testing.T) {
 					switch kind {
 					case "PUTABANDON":
 						trig = &c01Trigger{labels: map[string]bool{"WriteBlock:write:tmpfile": true, "WriteBlock:tmpfile.Close": true}, fn: func() {
+							insideAbandon = true
 							perform(rv, "PUT", b, bidx, nil)
+							insideAbandon = false
 							tags = append(tags, "nested=PUT-same-block")
 							cn.hangUp()
 						}}
@@ -642,7 +646,7 @@ func TestVerifC01(t *testing.T) {
 						trig = nil
 					}
 					// an abandoned WriteBlock may still be running: wait until no volume method is active
-					for w, idle := 0, 0; idle < 3 && w < 20000; w++ {
+					for w, idle := 0, 0; kind == "PUTABANDON" && idle < 3 && w < 20000; w++ {
 						runtime.Gosched()
 						time.Sleep(200 * time.Microsecond)
 						if verifActive() == 0 {
@@ -685,6 +689,18 @@ func TestVerifC01(t *testing.T) {
 				rows[k] = gList(row)
 			}
 			o := fmt.Sprintf("O %d %s %s %s %d", code, gbody, gcl, gList(rows), extra)
+			if insideAbandon && kind == "PUT" {
+				// this PUT ran while another PUT of the block was in the middle of WriteBlock (its temp file
+				// is in the directory): the directory is looked at when that one is over
+				o = fmt.Sprintf("O %d %s %s @@LISTING@@", code, gbody, gcl)
+				pendingObs = append(pendingObs, len(obs))
+			}
+			if kind == "PUTABANDON" {
+				for _, k := range pendingObs {
+					obs[k] = strings.Replace(obs[k], "@@LISTING@@", fmt.Sprintf("%s %d", gList(rows), extra), 1)
+				}
+				pendingObs = nil
+			}
 			dsc := fmt.Sprintf("%s %s -> %d", kind, b.hash[:6], code)
 			if shortNote != "" {
 				dsc = fmt.Sprintf("%s %s (%s) -> %d", kind, b.hash[:6], shortNote, code)
